@@ -1601,7 +1601,22 @@ public:
                     break;
                 }
                 if ((a.sym || b.sym) && I.getOpcode() == Instruction::FNeg) { setReg(s, &I, mkSym(a.bits, a.ex() ^ ZC.bv_val((uint64_t)(1ULL << (a.bits - 1)), a.bits))); break; }
-                if (a.sym || b.sym) throw EngineError("symbolic fp arithmetic");
+                if (a.sym || b.sym) {
+                    // IEEE-754 arithmetic in Z3's floating-point theory, round to nearest even (the mode the code under test runs in)
+                    bool dbl = I.getOperand(0)->getType()->isDoubleTy();
+                    z3::sort fs = dbl ? ZC.fpa_sort(11, 53) : ZC.fpa_sort(8, 24);
+                    z3::expr x = a.ex().mk_from_ieee_bv(fs), y = b.ex().mk_from_ieee_bv(fs), rne = ZC.fpa_rounding_mode(), r(ZC);
+                    Z3_ast m = Z3_mk_fpa_round_nearest_ties_to_even(ZC);
+                    switch (I.getOpcode()) {
+                    case Instruction::FAdd: r = z3::expr(ZC, Z3_mk_fpa_add(ZC, m, x, y)); break;
+                    case Instruction::FSub: r = z3::expr(ZC, Z3_mk_fpa_sub(ZC, m, x, y)); break;
+                    case Instruction::FMul: r = z3::expr(ZC, Z3_mk_fpa_mul(ZC, m, x, y)); break;
+                    default: r = z3::expr(ZC, Z3_mk_fpa_div(ZC, m, x, y)); break;
+                    }
+                    (void)rne;
+                    setReg(s, &I, mkSym(a.bits, z3::expr(ZC, Z3_mk_fpa_to_ieee_bv(ZC, r))));
+                    break;
+                }
                 bool isD = I.getOperand(0)->getType()->isDoubleTy();
                 auto asD = [&](const Val& v) { if (isD) { double d; memcpy(&d, &v.c, 8); return d; } float f; uint32_t u = v.c; memcpy(&f, &u, 4); return (double)f; };
                 auto fromD = [&](double d) { if (isD) { uint64_t u; memcpy(&u, &d, 8); return Val(64, u); } float f = (float)d; uint32_t u; memcpy(&u, &f, 4); return Val(32, u); };
